@@ -227,17 +227,32 @@ func init() {
 				s.close()
 				return out
 			}
-			// precondition: a majority of the voters of the newest configuration known anywhere can run
+			// precondition: the nodes that can run are a majority of the voters of EVERY configuration one of them
+			// may be operating on (latest and committed configuration of each node that takes part; what only the
+			// node staying away knows - e.g. a configuration entry it appended and sent to nobody - binds nobody)
+			runnable := func(id uint64) bool {
+				n := s.w.nodes[id-1]
+				return int(id-1) != exclude && !n.dead && n.serveErr != ErrNodeRemoved
+			}
 			var newest Config
+			enough := true
 			for _, n := range s.w.nodes {
-				if n.r != nil && n.r.configs.Latest.Index >= newest.Index {
+				if n.r == nil || !runnable(n.id) {
+					continue
+				}
+				if n.r.configs.Latest.Index >= newest.Index {
 					newest = n.r.configs.Latest
 				}
-			}
-			alive := 0
-			for id, nd := range newest.Nodes {
-				if nd.Voter && int(id-1) != exclude && !s.w.nodes[id-1].dead && s.w.nodes[id-1].serveErr != ErrNodeRemoved {
-					alive++
+				for _, c := range []Config{n.r.configs.Latest, n.r.configs.Committed} {
+					alive := 0
+					for id, nd := range c.Nodes {
+						if nd.Voter && int(id) <= len(s.w.nodes) && runnable(id) {
+							alive++
+						}
+					}
+					if alive < c.quorum() {
+						enough = false
+					}
 				}
 			}
 			if exclude >= 0 {
@@ -246,7 +261,7 @@ func init() {
 					continue
 				}
 			}
-			if alive < newest.quorum() {
+			if !enough {
 				s.close()
 				continue
 			}
@@ -263,7 +278,8 @@ func init() {
 					who = fmt.Sprintf("node %d staying away", exclude+1)
 					key += ":one-node-away"
 				}
-				out = append(out, simViolation{Oracle: "progress", Key: key, Desc: fmt.Sprintf("fair continuation (%s) after %v: %s", who, histStrings(hist), problem), Full: append([]simEvent(nil), s.hist...)})
+				out = append(out, simViolation{Oracle: "progress", Key: key, Desc: fmt.Sprintf("fair continuation (%s) after %v: %s", who, histStrings(hist), problem), Full: append([]simEvent(nil), s.hist...),
+					Final: "progress", Prefix: append([]simEvent{}, hist...)})
 			}
 			// safety oracles keep running during the continuation
 			for _, v := range s.w.led.viol[nv:] {
@@ -322,7 +338,7 @@ func init() {
 		MustReach: []string{"leaders"},
 		Assume: []string{
 			"liveness is decided as step-bounded progress under ONE fair scheduler (all internal events to quiescence, then one timeout, round-robin over the nodes whose timer is armed; at most 40 rounds), started from every explored state after faults stop and down nodes restart; a violation is a repeated state (lasso) or the round bound; this is not a real-time bound and not all fair schedulers",
-			"the goal is checked only when a majority of the voters of the newest configuration can run (nodes that could not restart or removed themselves are outside)",
+			"the goal is checked only when the nodes that can run are a majority of the voters of every configuration (latest or committed) held by one of them (nodes that could not restart or removed themselves are outside; a configuration known only to the node staying away binds nobody)",
 		},
 	}
 	vkChecks["C17"] = func(args []string) int { return runSimCheck(c17, args) }
